@@ -94,10 +94,9 @@ HDR = '''/-
 -/
 import TfelVerif.Common.M3
 import TfelVerif.C05.Lemmas
-import TfelVerif.C05.Props
 %(imports)s
 namespace TfelVerif.C05.%(ns)s
-open TfelVerif TfelVerif.Mandel TfelVerif.C05 TfelVerif.C05.Props
+open TfelVerif TfelVerif.Mandel TfelVerif.C05
 set_option linter.unusedVariables false
 set_option linter.unusedSectionVars false
 set_option linter.unusedSimpArgs false
